@@ -1,6 +1,6 @@
 use std::convert::TryFrom;
 
-use rusty_linter::core::qualifier_of_variant;
+use rusty_linter::core::{CastVariant, qualifier_of_variant};
 use rusty_parser::{FileHandle, TypeQualifier};
 use rusty_variant::Variant;
 
@@ -49,7 +49,9 @@ fn do_input_one_var<S: InterpreterTrait>(
         TypeQualifier::BangSingle => Variant::from(parse_single_input(raw_input)?),
         TypeQualifier::DollarString => Variant::from(raw_input),
         TypeQualifier::PercentInteger => Variant::from(parse_int_input(raw_input)?),
-        _ => todo!("INPUT type {} not supported yet", q),
+        // the number is converted like any other value stored into a variable of that type:
+        // rounded for LONG, Overflow if it does not fit
+        _ => Variant::from(parse_double_input(raw_input)?).cast(q)?,
     };
     interpreter.context_mut()[index] = new_value;
     Ok(())
@@ -82,6 +84,21 @@ fn parse_single_input(s: String) -> Result<f32, RuntimeError> {
     } else {
         s.parse::<f32>()
             .map_err(|e| RuntimeError::Other(format!("Could not parse {} as float: {}", s, e)))
+    }
+}
+
+fn parse_double_input(s: String) -> Result<f64, RuntimeError> {
+    if s.is_empty() {
+        Ok(0.0)
+    } else {
+        match s.parse::<f64>() {
+            Ok(f) if f.is_finite() => Ok(f),
+            Ok(_) => Err(RuntimeError::Overflow),
+            Err(e) => Err(RuntimeError::Other(format!(
+                "Could not parse {} as number: {}",
+                s, e
+            ))),
+        }
     }
 }
 
